@@ -80,6 +80,7 @@ func catalogue() *config.MechanismPrototypes {
 				map[string]any{"header": sessionHeader},
 				map[string]any{"query_parameter": "session"},
 				map[string]any{"cookie": "session"},
+				map[string]any{"body_parameter": "session"},
 			},
 			"subject":          map[string]any{"id": "id"},
 			"session_lifespan": map[string]any{"active": "active"},
